@@ -238,4 +238,210 @@ theorem compareL_spec {x y : Limbs} (hx : Normalized x) (hy : Normalized y) :
     have : B64 ^ y.length ≤ B64 ^ (x.length - 1) := Nat.pow_le_pow_right B64_pos (by omega)
     omega
 
+/-! ## `shl_bits`, `shl_limbs`, `shl` -/
+
+theorem shl_limb_split {xi n : Nat} (hn : n < 64) :
+    xi * 2 ^ n = xi * 2 ^ n % B64 + B64 * (xi / 2 ^ (64 - n)) := by
+  have hB : B64 = 2 ^ (64 - n) * 2 ^ n := by
+    unfold B64; rw [← Nat.pow_add]; congr 1; omega
+  have h1 : xi * 2 ^ n / B64 = xi / 2 ^ (64 - n) := by
+    rw [hB]; exact Nat.mul_div_mul_right _ _ (Nat.two_pow_pos _)
+  have := Nat.div_add_mod (xi * 2 ^ n) B64
+  rw [h1] at this
+  omega
+
+theorem shl_limb_lt {xi prev n : Nat} (hn0 : 0 < n) (hn : n < 64) (hp : prev < B64) :
+    xi * 2 ^ n % B64 + prev / 2 ^ (64 - n) < B64 := by
+  have hB : B64 = 2 ^ (64 - n) * 2 ^ n := by
+    unfold B64; rw [← Nat.pow_add]; congr 1; omega
+  have h1 : xi * 2 ^ n % B64 = xi % 2 ^ (64 - n) * 2 ^ n := by
+    rw [hB]; exact Nat.mul_mod_mul_right _ _ _
+  have h2 : prev / 2 ^ (64 - n) < 2 ^ n := by
+    rw [Nat.div_lt_iff_lt_mul (Nat.two_pow_pos _), Nat.mul_comm, ← hB]; exact hp
+  have h3 : xi % 2 ^ (64 - n) + 1 ≤ 2 ^ (64 - n) := Nat.mod_lt _ (Nat.two_pow_pos _)
+  have h4 := Nat.mul_le_mul_right (2 ^ n) h3
+  rw [Nat.add_mul, Nat.one_mul, ← hB] at h4
+  omega
+
+theorem shlBitsGo_spec (n : Nat) (hn0 : 0 < n) (hn : n < 64) : ∀ (x : Limbs) (prev : Nat), LimbsOk x → prev < B64 →
+    valL (shlBitsGo n x prev).1 + B64 ^ x.length * ((shlBitsGo n x prev).2 / 2 ^ (64 - n)) =
+      valL x * 2 ^ n + prev / 2 ^ (64 - n) ∧
+    (shlBitsGo n x prev).1.length = x.length ∧ LimbsOk (shlBitsGo n x prev).1 ∧ (shlBitsGo n x prev).2 < B64
+  | [], prev, _, hp => by simp [shlBitsGo, valL, limbsOk_nil, hp]
+  | xi :: xs, prev, hx, hp => by
+    obtain ⟨hxi, hxs⟩ := limbsOk_cons.mp hx
+    obtain ⟨h1, h2, h3, h4⟩ := shlBitsGo_spec n hn0 hn xs xi hxs hxi
+    simp only [shlBitsGo, valL, List.length_cons]
+    refine ⟨?_, by rw [h2], limbsOk_cons.mpr ⟨shl_limb_lt hn0 hn hp, h3⟩, h4⟩
+    have hs := shl_limb_split (xi := xi) hn
+    rw [Nat.pow_succ]
+    calc xi * 2 ^ n % B64 + prev / 2 ^ (64 - n) + B64 * valL (shlBitsGo n xs xi).1 +
+          B64 ^ xs.length * B64 * ((shlBitsGo n xs xi).2 / 2 ^ (64 - n))
+        = xi * 2 ^ n % B64 + prev / 2 ^ (64 - n) + B64 * (valL (shlBitsGo n xs xi).1 +
+            B64 ^ xs.length * ((shlBitsGo n xs xi).2 / 2 ^ (64 - n))) := by ring
+      _ = xi * 2 ^ n % B64 + prev / 2 ^ (64 - n) + B64 * (valL xs * 2 ^ n + xi / 2 ^ (64 - n)) := by rw [h1]
+      _ = (xi * 2 ^ n % B64 + B64 * (xi / 2 ^ (64 - n))) + B64 * valL xs * 2 ^ n + prev / 2 ^ (64 - n) := by ring
+      _ = xi * 2 ^ n + B64 * valL xs * 2 ^ n + prev / 2 ^ (64 - n) := by rw [← hs]
+      _ = (xi + B64 * valL xs) * 2 ^ n + prev / 2 ^ (64 - n) := by ring
+
+/-- **`shl_bits`** (`0 < n < 64`) -/
+theorem shlBitsL_spec {cap : Nat} {x : Limbs} (h : Normalized x) (hlen : x.length ≤ cap) {n : Nat} (hn0 : 0 < n)
+    (hn : n < 64) :
+    (∀ z, shlBitsL cap x n = some z → Normalized z ∧ valL z = valL x * 2 ^ n) ∧
+    (valL x * 2 ^ n < B64 ^ cap → ∃ z, shlBitsL cap x n = some z) := by
+  obtain ⟨h1, h2, h3, h4⟩ := shlBitsGo_spec n hn0 hn x 0 h.1 B64_pos
+  rw [Nat.zero_div, Nat.add_zero] at h1
+  have hcl : (shlBitsGo n x 0).2 / 2 ^ (64 - n) < B64 :=
+    Nat.lt_of_le_of_lt (Nat.div_le_self _ _) h4
+  unfold shlBitsL
+  dsimp only
+  by_cases hc : (shlBitsGo n x 0).2 / 2 ^ (64 - n) = 0
+  · rw [if_neg (by simpa using hc)]
+    rw [hc, Nat.mul_zero, Nat.add_zero] at h1
+    refine ⟨?_, fun _ => ⟨_, rfl⟩⟩
+    intro z hz
+    injection hz with hz
+    subst hz
+    refine ⟨normalized_of_ge h3 ?_, h1⟩
+    intro hne
+    rw [h2, h1]
+    have hxne : x ≠ [] := by
+      intro h0; apply hne; apply List.eq_nil_of_length_eq_zero; rw [h2, h0]; rfl
+    calc B64 ^ (x.length - 1) ≤ valL x := valL_ge h hxne
+      _ = valL x * 1 := (Nat.mul_one _).symm
+      _ ≤ valL x * 2 ^ n := Nat.mul_le_mul_left _ (Nat.two_pow_pos _)
+  · rw [if_pos (by simpa using hc)]
+    unfold tryPush
+    rw [h2]
+    constructor
+    · intro z hz
+      split at hz
+      · injection hz with hz
+        subst hz
+        refine ⟨⟨limbsOk_append.mpr ⟨h3, fun l hl => by simp at hl; rw [hl]; exact hcl⟩, ?_⟩, ?_⟩
+        · intro l hl
+          simp at hl
+          rw [← hl]; exact hc
+        · rw [valL_append, h2]; exact h1
+      · exact absurd hz (by simp)
+    · intro hfit
+      have hge : B64 ^ x.length ≤ valL x * 2 ^ n := by
+        rw [← h1]
+        have : B64 ^ x.length * 1 ≤ B64 ^ x.length * ((shlBitsGo n x 0).2 / 2 ^ (64 - n)) :=
+          Nat.mul_le_mul_left _ (Nat.pos_of_ne_zero hc)
+        omega
+      have : x.length < cap := by
+        have : B64 ^ x.length < B64 ^ cap := by omega
+        exact (Nat.pow_lt_pow_iff_right (by unfold B64; decide : 1 < B64)).mp this
+      rw [if_pos this]
+      exact ⟨_, rfl⟩
+
+/-- **`shl_limbs`** -/
+theorem shlLimbsL_spec {cap : Nat} {x : Limbs} (h : Normalized x) (n : Nat) :
+    (∀ z, shlLimbsL cap x n = some z → Normalized z ∧ valL z = valL x * B64 ^ n) ∧
+    (x ≠ [] → valL x * B64 ^ n < B64 ^ cap → ∃ z, shlLimbsL cap x n = some z) := by
+  unfold shlLimbsL
+  constructor
+  · intro z hz
+    split at hz
+    · exact absurd hz (by simp)
+    · split at hz
+      · rename_i he
+        injection hz with hz; subst hz
+        have : x = [] := by cases x with
+          | nil => rfl
+          | cons a as => simp at he
+        subst this
+        exact ⟨normalized_nil, by simp [valL]⟩
+      · rename_i he
+        injection hz with hz; subst hz
+        have hne : x ≠ [] := by intro h0; subst h0; simp at he
+        refine ⟨⟨limbsOk_append.mpr ⟨fun l hl => by rw [List.eq_of_mem_replicate hl]; exact B64_pos, h.1⟩, ?_⟩, ?_⟩
+        · intro l hl
+          rw [List.getLast?_append] at hl
+          cases hx : x.getLast? with
+          | none => exact absurd (List.getLast?_eq_none_iff.mp hx) hne
+          | some a =>
+            rw [hx] at hl
+            simp only [Option.some_or] at hl
+            injection hl with hl
+            subst hl
+            exact h.2 a hx
+        · rw [valL_zeros_append]; ring
+  · intro hne hfit
+    have hge := valL_ge h hne
+    have : ¬ (n + x.length > cap) := by
+      intro hcon
+      have h1 : B64 ^ cap ≤ B64 ^ (x.length - 1 + n) := Nat.pow_le_pow_right B64_pos (by
+        have := List.length_pos_iff.mpr hne; omega)
+      have h2 : B64 ^ (x.length - 1) * B64 ^ n ≤ valL x * B64 ^ n := Nat.mul_le_mul_right _ hge
+      rw [← Nat.pow_add] at h2
+      omega
+    rw [if_neg this]
+    split <;> exact ⟨_, rfl⟩
+
+/-- **`shl`** -/
+theorem shlL_spec {cap : Nat} {x : Limbs} (h : Normalized x) (hne : x ≠ []) (hlen : x.length ≤ cap) (n : Nat) :
+    (∀ z, shlL cap x n = some z → Normalized z ∧ valL z = valL x * 2 ^ n) ∧
+    (valL x * 2 ^ n < B64 ^ cap → ∃ z, shlL cap x n = some z) := by
+  have hdm := Nat.div_add_mod n 64
+  have hpw : (2 : Nat) ^ n = 2 ^ (n % 64) * B64 ^ (n / 64) := by
+    unfold B64; rw [← Nat.pow_mul, ← Nat.pow_add]; congr 1; omega
+  have hB1 : 1 ≤ B64 ^ (n / 64) := Nat.pow_pos B64_pos
+  unfold shlL
+  dsimp only
+  by_cases hr : n % 64 = 0
+  · rw [if_neg (by simpa using hr)]
+    simp only [Option.bind_some]
+    rw [hr, Nat.pow_zero, Nat.one_mul] at hpw
+    by_cases hd : n / 64 = 0
+    · rw [if_neg (by simpa using hd)]
+      rw [hd, Nat.pow_zero] at hpw
+      refine ⟨fun z hz => ?_, fun _ => ⟨_, rfl⟩⟩
+      injection hz with hz; subst hz
+      exact ⟨h, by rw [hpw, Nat.mul_one]⟩
+    · rw [if_pos (by simpa using hd)]
+      obtain ⟨s1, s2⟩ := shlLimbsL_spec (cap := cap) h (n / 64)
+      rw [hpw]
+      exact ⟨s1, s2 hne⟩
+  · rw [if_pos (by simpa using hr)]
+    obtain ⟨b1, b2⟩ := shlBitsL_spec (cap := cap) h hlen (Nat.pos_of_ne_zero hr) (Nat.mod_lt _ (by decide))
+    constructor
+    · intro z hz
+      cases hb : shlBitsL cap x (n % 64) with
+      | none => rw [hb] at hz; exact absurd hz (by simp)
+      | some y =>
+        rw [hb, Option.bind_some] at hz
+        obtain ⟨ny, vy⟩ := b1 y hb
+        by_cases hd : n / 64 = 0
+        · rw [if_neg (by simpa using hd)] at hz
+          injection hz with hz; subst hz
+          rw [hd, Nat.pow_zero, Nat.mul_one] at hpw
+          exact ⟨ny, by rw [vy, hpw]⟩
+        · rw [if_pos (by simpa using hd)] at hz
+          obtain ⟨nz, vz⟩ := (shlLimbsL_spec (cap := cap) ny (n / 64)).1 z hz
+          exact ⟨nz, by rw [vz, vy, hpw]; ring⟩
+    · intro hfit
+      have hfit1 : valL x * 2 ^ (n % 64) < B64 ^ cap := by
+        have : valL x * 2 ^ (n % 64) * 1 ≤ valL x * 2 ^ (n % 64) * B64 ^ (n / 64) := Nat.mul_le_mul_left _ hB1
+        rw [hpw] at hfit
+        have e : valL x * (2 ^ (n % 64) * B64 ^ (n / 64)) = valL x * 2 ^ (n % 64) * B64 ^ (n / 64) := by ring
+        omega
+      obtain ⟨y, hb⟩ := b2 hfit1
+      obtain ⟨ny, vy⟩ := b1 y hb
+      rw [hb, Option.bind_some]
+      by_cases hd : n / 64 = 0
+      · rw [if_neg (by simpa using hd)]; exact ⟨_, rfl⟩
+      · rw [if_pos (by simpa using hd)]
+        have hyne : y ≠ [] := by
+          intro h0
+          have := valL_pos h hne
+          have : 0 < valL x * 2 ^ (n % 64) := Nat.mul_pos this (Nat.two_pow_pos _)
+          rw [h0] at vy; simp [valL] at vy; omega
+        apply (shlLimbsL_spec (cap := cap) ny (n / 64)).2 hyne
+        rw [vy]
+        rw [hpw] at hfit
+        have e : valL x * (2 ^ (n % 64) * B64 ^ (n / 64)) = valL x * 2 ^ (n % 64) * B64 ^ (n / 64) := by ring
+        omega
+
 end LexVerif.Proof.Slow
